@@ -153,7 +153,16 @@ func genLines(r interface{ IntN(int) int }, n int, includes []string, damage boo
 			case 7:
 				out = append(out, "$GENERATE 1-2 $$GENERATE 1-2 n$ A 10.0.0.$")
 			case 8:
-				out = append(out, "@ 300 IN A 192.0.2.1 ) stray")
+				switch r.IntN(4) {
+				case 0:
+					out = append(out, "@ 300 IN A 192.0.2.1 ) stray")
+				case 1:
+					out = append(out, []string{"$TTL 300 )", "$ORIGIN sub )", "$TTL 1h ) ; x"}[r.IntN(3)])
+				default:
+					// long comments inside a parenthesised record
+					n := []int{300, 511, 512, 513, 700, 1100}[r.IntN(6)]
+					out = append(out, "lc 300 IN MX ( ;"+strings.Repeat("c", n), "        10 ; preference "+strings.Repeat("d", r.IntN(3)*300), "        mail ) ; done")
+				}
 			case 9:
 				if r.IntN(2) == 0 {
 					out = append(out, "$GENERATE 5-1 bad$ A 10.0.0.$")
@@ -846,8 +855,12 @@ func strayParen(lines []string) int {
 		if !balanced(lines[:i]) {
 			return -1
 		}
-		if strings.ContainsAny(l, "\"\\;$\x00") {
+		if strings.ContainsAny(l, "\"\\;\x00") {
 			continue
+		}
+		up := strings.ToUpper(l)
+		if strings.Contains(l, "$") && !(strings.HasPrefix(up, "$TTL ") || strings.HasPrefix(up, "$ORIGIN ")) {
+			continue // $INCLUDE and $GENERATE have their own grammar
 		}
 		if strings.Count(l, ")") > strings.Count(l, "(") && len(strings.Fields(l)) >= 3 {
 			// make sure the first unmatched one is reached before any "("
